@@ -1028,3 +1028,415 @@ def multiname_order_model(repo):
                     'order; got %s' % (got,), 'nested/repeated alternatives flatten to source order'))
         return out
     return repo.memo('multiname-order-model', lambda: both_orders(build))
+
+
+# ---------------------------------------------------------------------------
+# remote calls: Environment (client) and Server
+# ---------------------------------------------------------------------------
+
+SERVER = 'supp/server.py'
+REMOTE = 'supp/remote.py'
+
+
+class Packed(object):
+    """dumps(obj): an opaque byte string that loads() turns back into obj."""
+    def __init__(self, obj):
+        self.obj = obj
+
+    def __repr__(self):
+        return 'packed(%r)' % (self.obj,)
+
+
+class Unserialisable(object):
+    """A value dumps() fails on, with the exception class the real serialiser raises for such a value."""
+    def __init__(self, exc='UnsupportedTypeException'):
+        self.exc = exc
+
+    def __repr__(self):
+        return '<unserialisable result: %s>' % self.exc
+
+
+class RemoteStubs(Stubs):
+    def __init__(self, repo, order='fwd'):
+        Stubs.__init__(self, repo, order)
+        self.log = []
+        for rel in (SERVER, REMOTE):
+            env = self.it.module_env(rel)
+            env['dumps'] = Native('dumps', self._dumps)
+            env['loads'] = Native('loads', self._loads)
+        senv = self.it.module_env(SERVER)
+        senv['nstr'] = Native('nstr', lambda it, a, k: a[0])
+        self.api_result = {}
+        self.api_raise = {}
+        senv['assistant'] = self.obj(None, 'module assistant', assist=self._api('assist'), location=self._api('location'))
+        senv['linter'] = self.obj(None, 'module linter', lint=self._api('lint'))
+        senv['Project'] = Native('Project', lambda it, a, k: (self.log.append(('Project', list(a), dict(k))), self.project)[1])
+        cm = self.obj(None, 'check_changes()', __enter__=Native('__enter__', lambda it, a, k: self.log.append(('enter',))),
+                      __exit__=Native('__exit__', lambda it, a, k: (self.log.append(('exit',)), False)[1]))
+        self.project = self.obj(None, 'project', check_changes=Native('check_changes', lambda it, a, k: cm))
+
+    def _api(self, name):
+        def fn(it, a, k):
+            self.log.append(('api', name, list(a), dict(k)))
+            if name in self.api_raise:
+                raise InterpRaise(self.api_raise[name][0], self.api_raise[name][1])
+            return self.api_result.get(name)
+        return Native(name, fn)
+
+    def _dumps(self, it, a, k):
+        def bad(x):
+            if isinstance(x, Unserialisable):
+                return x.exc
+            if isinstance(x, (Obj, Unknown, FuncVal)):
+                return 'UnsupportedTypeException'
+            if isinstance(x, (list, tuple, set)):
+                return next((b for b in map(bad, x) if b), None)
+            if isinstance(x, dict):
+                return next((b for b in map(bad, list(x.keys()) + list(x.values())) if b), None)
+            return None
+        b = bad(a[0])
+        if b:
+            raise InterpRaise(b, 'cannot serialise')
+        return Packed(a[0])
+
+    def _loads(self, it, a, k):
+        if not isinstance(a[0], Packed):
+            raise InterpRaise('UnpackException', 'garbage on the wire')
+        return a[0].obj
+
+    def conn(self, incoming, send_fails_on=()):
+        """A connection whose peer sends `incoming` (Packed payloads, 'EOF' or 'GARBAGE') and then nothing."""
+        st = {'in': list(incoming), 'sent': [], 'closed': 0, 'nsend': 0, 'polls_empty': 0}
+
+        def poll(it, a, k):
+            if st['closed']:
+                raise InterpRaise('OSError', 'handle is closed')
+            if st['in']:
+                return True
+            st['polls_empty'] += 1
+            if st['polls_empty'] > 3:
+                raise _Idle()
+            return False
+
+        def recv_bytes(it, a, k):
+            if st['closed']:
+                raise InterpRaise('OSError', 'handle is closed')
+            if not st['in']:
+                raise _Idle()
+            x = st['in'].pop(0)
+            if x == 'EOF':
+                raise InterpRaise('EOFError', '')
+            return x
+
+        def send_bytes(it, a, k):
+            if st['closed']:
+                raise InterpRaise('OSError', 'handle is closed')
+            st['nsend'] += 1
+            if st['nsend'] in send_fails_on:
+                raise InterpRaise('BrokenPipeError', 'peer went away')
+            st['sent'].append(a[0])
+
+        def close(it, a, k):
+            st['closed'] += 1
+        o = self.obj(None, 'connection', poll=Native('poll', poll), recv_bytes=Native('recv_bytes', recv_bytes),
+                     send_bytes=Native('send_bytes', send_bytes), close=Native('close', close))
+        return o, st
+
+
+class _Idle(Exception):
+    """The modelled peer has nothing more to say: the server loop would wait for ever."""
+
+
+def server_model(repo):
+    return repo.memo('server-model', lambda: _server_model(repo))
+
+
+def _server_model(repo):
+    out = []
+
+    def rec(tag, key, ok, msg, sample=None):
+        out.append((tag, key, bool(ok), msg, sample))
+    st = RemoteStubs(repo)
+    it = st.it
+    srv_cls = it.lookup_global(SERVER, 'Server')
+
+    def serve(incoming, handlers=None, send_fails_on=(), configured=True):
+        conn, cs = st.conn(incoming, send_fails_on)
+        st.log = []
+        srv = it.call(srv_cls, [conn], {})
+        if configured:
+            srv.attrs['project'] = st.project
+        for k, v in (handlers or {}).items():
+            srv.attrs[k] = v
+        it.steps = 0
+        how = 'returned'
+        try:
+            it.call(it.getattr(srv, 'run'), [], {})
+        except _Idle:
+            how = 'waiting'
+        except InterpRaise as e:
+            how = 'raised %s: %s' % (e.exc_name, e.msg)
+        except Uninterpretable as e:
+            if 'unbounded' in str(e) or 'budget' in str(e):
+                how = 'spinning'
+            else:
+                raise
+        return srv, cs, how
+
+    def replies(cs):
+        return [p.obj if isinstance(p, Packed) else p for p in cs['sent']]
+    ok_handler = Native('ping', lambda it_, a, k: ('pong', list(a), dict(k)))
+    def _boom(it_, a, k):
+        raise InterpRaise('ValueError', 'boom message')
+    boom = Native('boom', _boom)
+    unser = Native('unser', lambda it_, a, k: Unserialisable())
+    H = {'ping': ok_handler, 'boom': boom, 'unser': unser}
+    CLOSE = Packed(('close', (), {}))
+
+    # one request, one reply, then close
+    srv, cs, how = serve([Packed(('ping', (1, 2), {'k': 3})), CLOSE], H)
+    rec('reply', 'a request gets exactly one reply carrying the handler result', replies(cs) == [(('pong', [1, 2], {'k': 3}), True)],
+        'request ping(1, 2, k=3) must be answered by exactly one (result, True) built from the handler called with those '
+        'arguments; sent %s (%s)' % (replies(cs), how), 'ping(1,2,k=3) -> one reply (result, True)')
+    rec('close', 'a close request closes the connection and ends the loop', how == 'returned' and cs['closed'] == 1,
+        'after a close request Server.run must close the connection once and return; it %s, close() called %d times'
+        % (how, cs['closed']), 'close -> conn.close(); run returns')
+    # error containment
+    srv, cs, how = serve([Packed(('boom', (), {})), Packed(('ping', (), {})), CLOSE], H)
+    r = replies(cs)
+    rec('error', 'a failing handler is reported as (class name, message), False', len(r) == 2 and r[0] == (('ValueError', 'boom message'), False)
+        and r[1][1] is True, 'a handler raising ValueError("boom message") must be answered by ((ValueError, boom message), False) and '
+        'the next request served normally; sent %s (%s)' % (r, how), 'handler raises -> ((class, message), False), loop continues')
+    srv, cs, how = serve([Packed(('no_such_method', (), {})), Packed(('ping', (), {})), CLOSE], H)
+    r = replies(cs)
+    rec('error', 'an unknown method is an error reply, not a crash', len(r) == 2 and r[0][1] is False and r[0][0][0] == 'AttributeError'
+        and r[1][1] is True, 'a request naming no server method must be answered by an (AttributeError, ...) error reply and the loop '
+        'must go on; sent %s (%s)' % (r, how))
+    def picky(it_, a, k):
+        if k:
+            raise InterpRaise('TypeError', 'unexpected keyword')
+        return 'pong'
+    srv, cs, how = serve([Packed(('ping', (), {'bad': 1, 'worse': 2})), Packed(('ping', (), {})), CLOSE], {'ping': Native('ping', picky)})
+    r = replies(cs)
+    rec('error', 'wrong arguments are an error reply', len(r) == 2 and r[0] == (('TypeError', 'unexpected keyword'), False) and r[1] == ('pong', True),
+        'a request with arguments the handler rejects must give a TypeError error reply; sent %s (%s)' % (r, how))
+    # serialisation failure: an unsupported type, a str that cannot be encoded (lone surrogate), a self-containing list
+    for exc in ('UnsupportedTypeException', 'UnicodeEncodeError', 'RecursionError'):
+        H2 = dict(H, unser=Native('unser', lambda it_, a, k, _e=exc: Unserialisable(_e)))
+        srv, cs, how = serve([Packed(('unser', (), {})), Packed(('ping', (), {})), CLOSE], H2)
+        r = replies(cs)
+        okf = len(r) == 2 and isinstance(r[0], tuple) and len(r[0]) == 2 and r[0][1] is False and isinstance(r[0][0], tuple) \
+            and len(r[0][0]) == 2 and all(isinstance(x, str) for x in r[0][0]) and r[1][1] is True
+        rec('fallback', 'a result whose serialisation raises %s still gets exactly one (error) reply' % exc, okf,
+            'a result the serialiser fails on with %s must be answered by exactly one ((name, message), False) reply of plain '
+            'strings, and the next request served; sent %s (%s)' % (exc, r, how), 'dumps raises %s -> constant ((name, message), False)' % exc)
+    # send failure
+    srv, cs, how = serve([Packed(('ping', (), {})), Packed(('ping', (7,), {})), CLOSE], H, send_fails_on=(1,))
+    r = replies(cs)
+    rec('send', 'a failed send does not end the loop', how == 'returned' and r == [(('pong', [7], {}), True)],
+        'when sending a reply fails the server must go on serving: the second request must be answered; sent %s (%s)' % (r, how))
+    # end of stream / garbage
+    srv, cs, how = serve(['EOF'], H)
+    rec('eof', 'end of stream ends the loop', how == 'returned' and not cs['sent'], 'when the client disappears (EOFError) run must '
+        'return without sending; it %s, sent %s' % (how, replies(cs)), 'EOF -> run returns')
+    srv, cs, how = serve(['GARBAGE', Packed(('ping', (), {})), CLOSE], H)
+    rec('eof', 'an undecodable request does not crash the server', how in ('returned', 'waiting') and not how.startswith('raised'),
+        'a request that cannot be decoded must not escape from run as an exception; it %s' % how)
+    srv, cs, how = serve([Packed(('ping', (), {}))], H)
+    rec('reply', 'the loop keeps waiting after a served request', how == 'waiting' and len(cs['sent']) == 1,
+        'after serving a request the server must wait for the next one; it %s after %d replies' % (how, len(cs['sent'])))
+    srv, cs, how = serve([Packed(('ping', (), {})), Packed(('ping', (), {})), Packed(('ping', (), {})), CLOSE], H)
+    rec('reply', 'three requests, three replies, in order', len(cs['sent']) == 3 and how == 'returned',
+        'three requests must produce three replies; sent %d (%s)' % (len(cs['sent']), how))
+
+    # ---- handlers: arguments handed to the in-process API -------------------------------------------------------
+    SRC, POS, FN = 'source text', [3, 4], '/p/file.py'
+    st.api_result = {'assist': ('pre', ['a', 'b']), 'location': [{'loc': (1, 2), 'file': FN}],
+                     'lint': [('W01', 'msg', 1, 2, Unserialisable()), ('E02', 'm2', 3, 4, None)]}
+    for name, args, want_api, want_res in (
+            ('assist', (SRC, POS, FN), [st.project, SRC, (3, 4), FN], ('pre', ['a', 'b'])),
+            ('location', (SRC, POS, FN), [st.project, SRC, (3, 4), FN], [{'loc': (1, 2), 'file': FN}]),
+            ('lint', (SRC, FN), [st.project, SRC, FN], [('W01', 'msg', 1, 2), ('E02', 'm2', 3, 4)]),
+            ('lint', (SRC, FN, True), [st.project, SRC, FN], [('W01', 'msg', 1, 2), ('E02', 'm2', 3, 4)])):
+        srv, cs, how = serve([Packed((name, args, {})), CLOSE])
+        api = [e for e in st.log if e[0] == 'api']
+        r = replies(cs)
+        got_args = api[0][2][:len(want_api)] if api else None
+        rec('handler', 'Server.%s%s hands its arguments to the API in order' % (name, '(syntax_only)' if len(args) == 3 and name == 'lint' else ''),
+            len(api) == 1 and api[0][1] == name and got_args == want_api and not api[0][3],
+            'a %s request with (source, %sfilename) must call the in-process %s exactly once with (project, source, %sfilename); '
+            'called %s' % (name, 'position, ' if name != 'lint' else '', name, 'tuple(position), ' if name != 'lint' else '',
+                           [(e[1], e[2], e[3]) for e in api]), 'Server.%s -> %s(project, ...)' % (name, name))
+        ok = len(r) == 1 and r[0][1] is True and (_norm(r[0][0]) == _norm(want_res))
+        rec('handler', 'Server.%s%s returns the API result' % (name, '(syntax_only)' if len(args) == 3 and name == 'lint' else ''), ok,
+            'the reply to %s must carry the API result%s; sent %s (%s)' % (name, ' (rows trimmed to code, message, line, column)'
+                                                                              if name == 'lint' else '', r, how))
+        inside = [e[0] for e in st.log if e[0] in ('enter', 'exit', 'api')]
+        rec('handler', 'Server.%s%s runs inside check_changes' % (name, '(syntax_only)' if len(args) == 3 and name == 'lint' else ''),
+            inside == ['enter', 'api', 'exit'], 'the API call must be made inside `with project.check_changes()` (stale modules are '
+            'dropped first); order of events %s' % inside)
+    # configure
+    srv, cs, how = serve([Packed(('configure', ({'sources': ['/p/src'], 'dyn_modules': ['dm']},), {})), CLOSE], configured=False)
+    pc = [e for e in st.log if e[0] == 'Project']
+    r = replies(cs)
+    rec('configure', 'configure builds the project from the configuration', len(pc) == 1 and pc[0][1][:1] == [['/p/src']]
+        and (pc[0][2].get('dyn_modules') == ['dm'] or pc[0][1][1:2] == [['dm']]) and srv.attrs.get('project') is st.project
+        and len(r) == 1 and r[0][1] is True,
+        'configure({sources, dyn_modules}) must build Project(sources, dyn_modules=...) and keep it for later requests; Project '
+        'called with %s, reply %s' % ([(e[1], e[2]) for e in pc], r))
+    srv, cs, how = serve([Packed(('configure', ({'sources': ['/p/src']},), {})), CLOSE], configured=False)
+    pc = [e for e in st.log if e[0] == 'Project']
+    r = replies(cs)
+    rec('configure', 'configure without dyn_modules', len(pc) == 1 and len(r) == 1 and r[0][1] is True,
+        'a configuration without dyn_modules must be accepted; reply %s' % (r,))
+    return out
+
+
+def _norm(x):
+    if isinstance(x, (list, tuple)):
+        return [_norm(y) for y in x]
+    return x
+
+
+def client_model(repo):
+    return repo.memo('client-model', lambda: _client_model(repo))
+
+
+def _client_model(repo):
+    import ast as _ast
+    out = []
+
+    def rec(tag, key, ok, msg, sample=None):
+        out.append((tag, key, bool(ok), msg, sample))
+    st = RemoteStubs(repo)
+    it = st.it
+    renv = it.module_env(REMOTE)
+    lock_log = []
+    lock = st.obj(None, 'lock', __enter__=Native('__enter__', lambda it_, a, k: lock_log.append('acquire')),
+                  __exit__=Native('__exit__', lambda it_, a, k: (lock_log.append('release'), False)[1]))
+    renv['Lock'] = Native('Lock', lambda it_, a, k: lock)
+    env_cls = it.lookup_global(REMOTE, 'Environment')
+    srv_cls = it.lookup_global(SERVER, 'Server')
+    env_node = repo.klass(REMOTE, 'Environment')
+
+    def client(replies):
+        conn, cs = st.conn(replies)
+        env = it.call(env_cls, [], {})
+        env.attrs['conn'] = conn
+        return env, cs
+
+    def invoke(env, meth, args):
+        it.steps = 0
+        try:
+            return it.call(it.getattr(env, meth), list(args), {}), None
+        except InterpRaise as e:
+            return None, e
+        except _Idle:
+            return None, InterpRaise('Idle', 'the client waits for a reply that never comes')
+
+    # reply handling
+    env, cs = client([Packed((['value', 7], True))])
+    r, exc = invoke(env, '_call', ['ping', 1, 2])
+    sent = [p.obj if isinstance(p, Packed) else p for p in cs['sent']]
+    rec('call', '_call sends one request and returns the reply value', exc is None and r == ['value', 7] and len(sent) == 1
+        and _norm(sent[0]) == ['ping', [1, 2], {}], '_call("ping", 1, 2) must send exactly one (name, args, kwargs) request and return the '
+        'value of an ok reply; sent %s, returned %s %s' % (sent, r, exc or ''), '_call: send (name, args, kwargs); recv (result, ok)')
+    env, cs = client([Packed((('ValueError', 'boom message'), False))])
+    r, exc = invoke(env, '_call', ['ping'])
+    rec('call', '_call raises with the server\'s message on an error reply', exc is not None and 'boom message' in str(exc.msg),
+        'an error reply ((class, message), False) must raise an exception carrying the message; got %s %s' % (r, exc),
+        'error reply -> raise Exception(message)')
+    env, cs = client([Packed(('first', True)), Packed(('second', True))])
+    r1, e1 = invoke(env, '_call', ['a'])
+    r2, e2 = invoke(env, '_call', ['b'])
+    rec('call', 'replies pair with requests in order', (r1, r2) == ('first', 'second') and len(cs['sent']) == 2,
+        'two sequential calls must each send one request and consume one reply in order; got %s %s' % (r1, r2))
+
+    # stubs: every public method that goes through _call
+    api_sig = {}
+    for mod, rel in (('assistant', ASSIST), ('linter', LINTER)):
+        for fn in repo.tree(rel).body:
+            if isinstance(fn, _ast.FunctionDef):
+                api_sig[fn.name] = [a.arg for a in fn.args.posonlyargs + fn.args.args]
+    nstub = 0
+    for m in env_node.body:
+        if not isinstance(m, _ast.FunctionDef) or m.name.startswith('_') or m.name in ('prepare', 'run', 'close'):
+            continue
+        params = [a.arg for a in m.args.posonlyargs + m.args.args][1:]
+        ndef = len(m.args.defaults)
+        for use_defaults in ([False, True] if ndef else [False]):
+            used = params[:len(params) - ndef] if use_defaults else params
+            vals = {}
+            for p in used:
+                vals[p] = [11, 22] if p == 'position' else ({'sources': ['/p/src']} if p == 'config' else 'value of ' + p)
+            env, cs = client([Packed(('the reply', True))])
+            r, exc = invoke(env, m.name, [vals[p] for p in used])
+            sent = [p.obj if isinstance(p, Packed) else p for p in cs['sent']]
+            nstub += 1
+            label = 'stub %s(%s)' % (m.name, ', '.join(used))
+            if exc is not None or len(sent) != 1 or not isinstance(sent[0], tuple) or len(sent[0]) != 3:
+                rec('stub', label + ' sends one request', False, 'Environment.%s must send exactly one (name, args, kwargs) request; sent %s %s'
+                    % (m.name, sent, exc or ''))
+                continue
+            rec('stub', label + ' returns the reply', r == 'the reply', 'Environment.%s must return the value of the reply; returned %r'
+                % (m.name, r), '%s -> reply value' % label)
+            name, args, kwargs = sent[0]
+            # hand the request to the interpreted server
+            st.api_result = {'assist': 'R', 'location': 'R', 'lint': []}
+            conn2, cs2 = st.conn([Packed((name, tuple(args), dict(kwargs))), Packed(('close', (), {}))])
+            st.log = []
+            srv = it.call(srv_cls, [conn2], {})
+            srv.attrs['project'] = st.project
+            if name == 'eval':
+                srv.attrs['eval'] = Native('eval', lambda it_, a, k: (st.log.append(('api', 'eval', list(a), dict(k))), 'R')[1])
+            try:
+                it.call(it.getattr(srv, 'run'), [], {})
+            except (_Idle, InterpRaise):
+                pass
+            rep = [p.obj if isinstance(p, Packed) else p for p in cs2['sent']]
+            rec('stub', label + ' is accepted by the server', len(rep) == 1 and rep[0][1] is True,
+                'the request %s sent by Environment.%s must be served without error by Server.%s; the server replied %s'
+                % ((name, args, kwargs), m.name, name, rep), '%s <-> Server.%s' % (label, name))
+            api = [e for e in st.log if e[0] == 'api']
+            if name in api_sig and api:
+                pos = api[0][2]
+                sig = api_sig[name]
+                got = dict(zip(sig, pos))
+                got.update(api[0][3])
+                bad = []
+                for p in used:
+                    if p in sig:
+                        want = tuple(vals[p]) if p == 'position' else vals[p]
+                        if got.get(p) != want:
+                            bad.append('%s: sent %r, arrived as %r' % (p, vals[p], got.get(p)))
+                rec('stub', label + ' arguments arrive under the same names', not bad and got.get('project') is st.project,
+                    'every argument of Environment.%s must reach the same-named parameter of %s(); %s' % (m.name, name, '; '.join(bad)
+                                                                                                       or 'project=%r' % got.get('project')),
+                    '%s: client argument -> same-named API parameter' % label)
+    rec('stub-count', 'client stubs', nstub >= 5, 'only %d client stubs found' % nstub)
+
+    # close
+    env, cs = client([])
+    r, exc = invoke(env, 'close', [])
+    sent = [p.obj if isinstance(p, Packed) else p for p in cs['sent']]
+    rec('close', 'close sends the close request, closes and forgets the connection',
+        exc is None and len(sent) == 1 and cs['closed'] == 1 and 'conn' not in env.attrs,
+        'Environment.close must send one close request, close the connection and delete it; sent %s, closed %d, conn kept: %s %s'
+        % (sent, cs['closed'], 'conn' in env.attrs, exc or ''), 'close: send close request; conn.close(); del conn')
+    if len(sent) == 1 and isinstance(sent[0], tuple):
+        conn2, cs2 = st.conn([Packed(sent[0])])
+        srv = it.call(srv_cls, [conn2], {})
+        how = 'returned'
+        try:
+            it.call(it.getattr(srv, 'run'), [], {})
+        except _Idle:
+            how = 'kept waiting'
+        except InterpRaise as e:
+            how = 'raised %s: %s' % (e.exc_name, e.msg)
+        rec('close', 'the close request ends the server loop', how == 'returned' and cs2['closed'] == 1 and not cs2['sent'],
+            'the request %r sent by Environment.close must make Server.run close its connection and return; the server %s '
+            '(closed %d, sent %s)' % (sent[0], how, cs2['closed'], cs2['sent']), 'client close request <-> server close branch')
+    r, exc = invoke(env, 'close', [])
+    rec('close', 'close twice is harmless', exc is None and cs['closed'] == 1, 'a second close() must do nothing; %s, closed %d'
+        % (exc or 'ok', cs['closed']))
+    return out
